@@ -77,6 +77,53 @@ theorem queries_transparent (ops : List Op) : ∀ w,
 example : run (static0 (some 2)) [.query 0, .sample 0, .query 3, .sample 0, .sample 0, .query 1] =
     run (static0 (some 2)) [.sample 0, .sample 0, .sample 0] := by decide
 
+/-- the transition ignores the device argument: two calls that differ only in the device lead to the same state and
+    return the same set -/
+theorem sample_device_irrelevant (w : World) (d d' : Nat) :
+    (sample d w).1 = (sample d' w).1 ∧ (sample d w).2.core = (sample d' w).2.core := by
+  cases hs : w.static with
+  | none => rw [sample_plain d hs, sample_plain d' hs]; simp [Out.core]
+  | some s =>
+    cases hc : s.cached with
+    | none => rw [sample_draw d hs (Or.inl hc), sample_draw d' hs (Or.inl hc)]; simp [Out.core]
+    | some p =>
+      cases h : (w.nonempty && ltInterval (s.counter + 1) s.interval) with
+      | true => rw [sample_cached d hs hc h, sample_cached d' hs hc h]; simp [Out.core]
+      | false => rw [sample_draw d hs (Or.inr h), sample_draw d' hs (Or.inr h)]; simp [Out.core]
+
+/-- **The state machine does not depend on the device arguments**: for every history, replacing the device of every
+    `sample_points` call (any spelling of any device, varied arbitrarily within the history) by one fixed device changes
+    neither which set each call returns, nor which calls draw, nor the state reached. In particular no device-specific copy
+    of an old set can survive a resample. -/
+theorem device_independent (ops : List Op) : ∀ w,
+    (run w ops).map Out.core = (run w (ops.map Op.forgetDev)).map Out.core ∧
+    exec w ops = exec w (ops.map Op.forgetDev) := by
+  induction ops with
+  | nil => intro w; simp [run, exec]
+  | cons op ops ih =>
+    intro w
+    cases op with
+    | sample d =>
+      obtain ⟨e1, e2⟩ := sample_device_irrelevant w d 0
+      simp only [List.map_cons, Op.forgetDev]
+      rw [run_sample_cons, run_sample_cons, List.map_cons, List.map_cons, e2]
+      simp only [exec, step]
+      rw [e1]
+      exact ⟨by rw [(ih _).1], (ih _).2⟩
+    | makeStatic k =>
+      simp only [List.map_cons, Op.forgetDev]
+      rw [run_makeStatic_cons, run_makeStatic_cons]
+      simp only [exec, step]
+      exact ih _
+    | query q =>
+      simp only [List.map_cons, Op.forgetDev]
+      rw [run_query_cons, run_query_cons]
+      simp only [exec, step]
+      exact ih _
+
+example : (run (static0 (some 2)) [.sample 0, .sample 2, .sample 0, .sample 2, .sample 3]).map Out.core =
+    (run (static0 (some 2)) [.sample 0, .sample 0, .sample 0, .sample 0, .sample 0]).map Out.core := by decide
+
 /-! ## constant interval -/
 
 /-- state of a static sampler that holds set `q`, has returned it `r + 1` times, next draw is `q + 1` -/
